@@ -223,7 +223,8 @@ def initial_cfg(cfg, engine_given):
 
 
 class SyncApi:
-    def __init__(self, rec, cfg, responder, sid=1, timeout=0.25, engine_given=True, **kw):
+    def __init__(self, rec, cfg, responder, sid=1, timeout=0.25, engine_given=True, auto_version=False, **kw):
+        """auto_version: leave `version` to the session's documented default (v3 when a user is given, v2c otherwise)"""
         from gufo.snmp.sync_client import client as cm
         from gufo.snmp import SnmpVersion
         _patch_v3_class(cm)
@@ -238,6 +239,8 @@ class SyncApi:
         e.update(self.cfgref[0].ev())
         self.rec2.emit(e)
         ver = {"v1": SnmpVersion.v1, "v2c": SnmpVersion.v2c, "v3": SnmpVersion.v3}[cfg.ver]
+        if auto_version and cfg.ver != "v1":
+            ver = None
         self.session = cm.SnmpSession("127.0.0.1", port=port, community=cfg.community, engine_id=(cfg.engine if engine_given and cfg.ver == "v3" else None),
                                       user=user_of(cfg), version=ver, timeout=timeout, **kw)
         self.proxy = SockProxy(self.session._sock, self.rec2, sid, self.ctx, self.cfgref)
@@ -275,7 +278,7 @@ class AsyncApi:
     """use inside a running loop: `api = await AsyncApi.create(...)`"""
 
     @classmethod
-    async def create(cls, rec, cfg, responder, sid=1, timeout=0.25, engine_given=True, **kw):
+    async def create(cls, rec, cfg, responder, sid=1, timeout=0.25, engine_given=True, auto_version=False, **kw):
         from gufo.snmp.async_client import client as cm
         from gufo.snmp import SnmpVersion
         _patch_v3_class(cm)
@@ -300,6 +303,8 @@ class AsyncApi:
         e.update(self.cfgref[0].ev())
         self.rec2.emit(e)
         ver = {"v1": SnmpVersion.v1, "v2c": SnmpVersion.v2c, "v3": SnmpVersion.v3}[cfg.ver]
+        if auto_version and cfg.ver != "v1":
+            ver = None
         self.session = cm.SnmpSession("127.0.0.1", port=port, community=cfg.community, engine_id=(cfg.engine if engine_given and cfg.ver == "v3" else None),
                                       user=user_of(cfg), version=ver, timeout=timeout, **kw)
         self.proxy = SockProxy(self.session._sock, self.rec2, sid, self.ctx, self.cfgref, quiet_block=True)
